@@ -3,12 +3,21 @@ PID = "C16"
 BEH = ["oksecure", "okinsecure", "refused", "hserror", "silent"]
 # "stalls": a real server that answers the first handshake message and then never hears the second (the model's "silent" class: no
 # handshake completes, the attempt has to be abandoned by its deadline)
-RULE = ("every upstream list of length 1..3 over {reachable+secure, reachable+insecure, refusing, handshake error, silent} (155 lists; length 4 "
+RULE = ("[c16] every upstream list of length 1..3 over {reachable+secure, reachable+insecure, refusing, handshake error, silent} (155 lists; length 4 "
         "sampled) x require-security x forward address {none, reachable, refusing}, each with several local connections; session-loss histories "
         "(carrier cut at various points followed by new local connections). Real Socket upstreams against real servers / refusing ports / "
-        "silent listeners on loopback, behind counting relays. distinct_nontrivial = distinct cases with a failing upstream or a cut")
+        "silent listeners on loopback, behind counting relays. [c16c] concurrent histories against the real Upstreams object: rounds of k = 1..6 "
+        "Connect calls released together by a barrier (channel offered / not offered by the server) separated by carrier cuts, the server going "
+        "away and coming back, keep-alive expiry and Shutdown; fixed shapes for every race the model distinguishes plus random histories; the "
+        "model answers with every outcome some schedule produces (exhaustive over the schedules of each round). distinct_nontrivial = distinct "
+        "cases with a failing upstream, a cut, a refusal or an absence")
 EXPLANATION = ("Props/C16.v: direct forward first, first good upstream in list order, one physical session shared by all logical connections, "
-               "re-establishment after loss, every attempt bounded; the run drives the real listener/upstream code on loopback.")
+               "re-establishment after loss, every attempt bounded (policy model, Mux/Policy.v); and over the faithful concurrent model of "
+               "Upstreams.Connect (Mux/Connect.v: goroutines with program counters, the mutex, openStream reading the shared field), for every "
+               "schedule and any number of goroutines: lock discipline, a single live session, one replacement per loss, a refusal is local, "
+               "concurrent transparent re-establishment on the first good upstream, sequential refinement of the policy model, refuted variants "
+               "with witness schedules; the model's shape switches are read from the source (Gen/ConnectShape.v). The run drives the real "
+               "listener/upstream code on loopback, sequentially (c16) and in concurrent rounds (c16c).")
 TRUSTED = ["the handshake bound is exercised with HandshakeTimeout lowered to 1.5 s (it is a variable; 30 s by default)",
            "a DNS upstream whose retired session had identifier 0 gets BADCONN on reconnecting from the same address (see DESIGN.md); not part of this matrix"]
 SHARDS = 4      # harness processes side by side (cases are independent)
@@ -19,6 +28,72 @@ def mk(must, fwd, ups, ops, src):
     line = "c16 %d %s %d %s %s" % (must, fwd, len(ups), " ".join(ups), " ".join(ops))
     nt = any(u not in ("oksecure", "okinsecure") for u in ups) or "cut" in ops
     return {"line": line, "key": line if nt else None, "tags": {"src": src, "must": must, "fwd": fwd, "n": len(ups), "silent": ups.count("silent") + ups.count("stalls")}}
+
+
+def mkc(must, ups, ops, src):
+    """a concurrent history (harness op c16c)"""
+    line = "c16c %d %d %s %s" % (must, len(ups), " ".join(ups), " ".join(ops))
+    nt = any(u not in ("oksecure", "okinsecure") for u in ups) or any(o in ("cut", "nosvc", "shutdown") or o.startswith("away") for o in ops)
+    kmax = 0
+    toks = " ".join(ops).split()
+    for i, t in enumerate(toks):
+        if t == "round":
+            kmax = max(kmax, int(toks[i + 1]))
+    return {"line": line, "key": line if nt else None, "tags": {"src": src, "must": must, "fwd": "conc", "n": len(ups), "silent": ups.count("silent"), "k": kmax}}
+
+
+def rnd(k, nos=()):
+    return "round %d %s" % (k, " ".join("nosvc" if i in nos else "svc" for i in range(k)))
+
+
+def concurrent_cases(tier, rng):
+    thorough = tier == "thorough"
+    cs = []
+    shapes = [(0, ["oksecure"]), (0, ["refused", "okinsecure"]), (0, ["hserror", "oksecure"]), (1, ["okinsecure", "oksecure"])]
+    ks = (2, 3, 4, 6) if thorough else (3, 6)
+    for must, ups in shapes:
+        g = len(ups) - 1        # the good upstream
+        for k in ks:
+            # together at the start; together right after a loss; a refusal among live connections; together while the server is away
+            cs.append(mkc(must, ups, [rnd(k)], "c-together"))
+            cs.append(mkc(must, ups, [rnd(1), "cut", rnd(k), rnd(2)], "c-together-after-loss"))
+            cs.append(mkc(must, ups, [rnd(2), rnd(k, nos=(0, k - 1)), rnd(1)], "c-refusal"))
+            cs.append(mkc(must, ups, [rnd(1), "cut", "away %d" % g, rnd(k), rnd(2), "back %d" % g, rnd(k)], "c-away-together"))
+        cs.append(mkc(must, ups, [rnd(2), "cut", "expire", rnd(3), rnd(1)], "c-expire"))
+        cs.append(mkc(must, ups, [rnd(2), "shutdown", rnd(3, nos=(1,)), rnd(1)], "c-shutdown"))
+        cs.append(mkc(must, ups, [rnd(2, nos=(0, 1)), rnd(2)], "c-refusal-first"))
+        cs.append(mkc(must, ups, ["away %d" % g, rnd(3), "back %d" % g, rnd(3), "cut", rnd(3, nos=(2,))], "c-away-first"))
+    cs.append(mkc(0, ["refused"], [rnd(3), rnd(2, nos=(0,))], "c-none-good"))
+    cs.append(mkc(1, ["okinsecure"], [rnd(3), rnd(1)], "c-none-good"))
+    cs.append(mkc(1, ["okinsecure", "hserror"], [rnd(2), rnd(2)], "c-none-good"))
+    if thorough:
+        cs.append(mkc(0, ["silent", "oksecure"], [rnd(3), "cut", rnd(2)], "c-silent"))
+    behs = ["oksecure", "okinsecure", "refused", "hserror"]
+    for _ in range(150 if thorough else 16):
+        ups = [rng.choice(behs) for _ in range(rng.range(1, 3))]
+        if not any(u.startswith("ok") for u in ups):
+            ups[rng.below(len(ups))] = "oksecure"
+        must = rng.below(2)
+        ops = []
+        lastcut = False
+        for _ in range(rng.range(3, 7)):
+            o = rng.weighted([("round", 6), ("cut", 3), ("away", 2), ("back", 2), ("expire", 1), ("shutdown", 1)])
+            if o == "round":
+                k = rng.range(1, 5)
+                nos = tuple(i for i in range(k) if rng.chance(1, 5))
+                ops.append(rnd(k, nos))
+                lastcut = False
+            elif o in ("away", "back"):
+                ops.append("%s %d" % (o, rng.below(len(ups))))
+            elif o == "expire":
+                if lastcut:
+                    ops.append("expire")
+            else:
+                ops.append(o)
+                lastcut = o == "cut"
+        ops.append(rnd(rng.range(1, 4)))
+        cs.append(mkc(must, ups, ops, "c-random"))
+    return cs
 
 
 def lists(n):
@@ -88,17 +163,151 @@ def cases(tier, rng):
             ops.insert(1, "cut")
         ops.append("conn")
         cs.append(mk(rng.below(2), "none", ups, ops, "loss"))
-    return cs
+    return cs + concurrent_cases(tier, rng)
 
 
 def good(must, b):
     return b == "oksecure" or (b == "okinsecure" and not must)
 
 
+def parse_rounds(obs):
+    """c16c observation -> list of rounds, each a list of alternatives (results, phys, sid, live_mine, live_old)"""
+    p = obs.split()
+    rounds = []
+    i = 0
+    while i < len(p):
+        if p[i] != "round":
+            return None
+        nalt = int(p[i + 1])
+        i += 2
+        alts = []
+        for _ in range(nalt):
+            if i >= len(p) or p[i] != "alt":
+                return None
+            i += 1
+            res = []
+            while p[i] != "phys":
+                res.append(p[i])
+                i += 1
+            i += 1
+            phys = []
+            while p[i] != "sid":
+                phys.append(int(p[i]))
+                i += 1
+            sid = p[i + 1]
+            if p[i + 2] != "live":
+                return None
+            alts.append((tuple(res), tuple(phys), sid, int(p[i + 3]), int(p[i + 4])))
+            i += 5
+        rounds.append(alts)
+    return rounds
+
+
+def oracle_concurrent(case, impl):
+    """the property on a concurrent history, from the case line and the implementation's observation alone"""
+    toks = case["line"].split()
+    must, n = int(toks[1]), int(toks[2])
+    ups = toks[3:3 + n]
+    ops = toks[3 + n:]
+    try:
+        rounds = parse_rounds(impl)
+    except (ValueError, IndexError):
+        rounds = None
+    if rounds is None:
+        return [("crash", "scenario crashed: " + impl[:200])]
+    away = set()
+    session = None          # upstream index of the current session, None = no session
+    alive = False           # ... and its carrier is up
+    kept_alive = 0          # streams handed out since the last cut / Shutdown
+    phys = [0 if u in ("oksecure", "okinsecure") else -1 for u in ups]
+    out = []
+    ri = 0
+    i = 0
+    while i < len(ops):
+        o = ops[i]
+        if o == "cut":
+            alive, kept_alive = False, 0
+            i += 1
+        elif o == "shutdown":
+            session, alive, kept_alive = None, False, 0
+            i += 1
+        elif o == "expire":
+            i += 1
+        elif o in ("away", "back"):
+            (away.add if o == "away" else away.discard)(int(ops[i + 1]))
+            i += 2
+        elif o == "round":
+            k = int(ops[i + 1])
+            chans = ops[i + 2:i + 2 + k]
+            i += 2 + k
+            if ri >= len(rounds) or len(rounds[ri]) != 1:
+                return [("crash", "observation does not match the history: " + impl[:200])]
+            res, ph, sid, lm, lo = rounds[ri][0]
+            ri += 1
+            where = "round %d of %s" % (ri, case["line"])
+            if "hang" in res:
+                out.append(("unbounded;concurrent", "a Connect neither returned a stream nor an error (%s): %s" % (where, " ".join(res))))
+                return out
+            if "panic" in res:
+                out.append(("panic;concurrent", "a Connect panicked (%s): %s" % (where, " ".join(res))))
+                return out
+            nsvc = sum(1 for c in chans if c == "svc")
+            reach = [u in ("oksecure", "okinsecure") and j not in away for j, u in enumerate(ups)]
+            fg = next((j for j, u in enumerate(ups) if reach[j] and good(must, u)), None)
+            had_live = session is not None and alive
+            if had_live or fg is not None:
+                target = session if had_live else fg
+                want = sorted(["up%d" % target] * nsvc) + ["refused"] * (k - nsvc)
+                if list(res) != want:
+                    ups_got = [r for r in res if r.startswith("up")]
+                    if any(r != "up%d" % target for r in ups_got):
+                        out.append(("wrong-upstream;concurrent", "%s: expected %s, got %s" % (where, " ".join(want), " ".join(res))))
+                    elif had_live:
+                        out.append(("live-session-not-used;concurrent", "%s: a live session exists; expected %s, got %s" % (where, " ".join(want), " ".join(res))))
+                    else:
+                        out.append(("no-reconnect;concurrent" if session is not None else "good-upstream-not-used;concurrent",
+                                    "%s: upstream %d is good; expected %s, got %s" % (where, fg, " ".join(want), " ".join(res))))
+                if not had_live:
+                    for j in range(fg):
+                        if reach[j]:
+                            phys[j] += 1        # reached, but the session does not meet the security requirement
+                    phys[fg] += 1
+                    session, alive = fg, True
+                if list(ph) != phys:
+                    out.append(("session-not-shared;concurrent", "%s: physical connections per upstream %r, one session establishment gives %r" % (where, list(ph), phys)))
+                    phys = list(ph)
+                if lm < sum(1 for r in res if r.startswith("up")):
+                    out.append(("stream-dead-on-return;concurrent", "%s: %d of the streams just returned carry no data" % (where, sum(1 for r in res if r.startswith("up")) - lm)))
+                if lo < kept_alive:
+                    out.append((("refusal-cut-others;concurrent" if nsvc < k else "live-streams-cut;concurrent"),
+                                "%s: %d of %d logical connections opened earlier on the live session stopped carrying data" % (where, kept_alive - lo, kept_alive)))
+                if had_live and sid != "same":
+                    out.append(("session-replaced-without-loss;concurrent", "%s: the live session was replaced (sid %s)" % (where, sid)))
+                kept_alive = lm + min(lo, kept_alive) if had_live else lm
+            else:
+                bad = [r for r in res if r not in ("openfail", "lost")]
+                if bad:
+                    out.append(("connected-without-good-upstream;concurrent", "%s: no upstream meets the requirement, got %s" % (where, " ".join(res))))
+                for j in range(n):
+                    if reach[j] and not (phys[j] + 1 <= ph[j] <= phys[j] + k):
+                        out.append(("session-not-shared;concurrent", "%s: upstream %d saw %d physical connections, %d..%d attempts were possible" % (where, j, ph[j], phys[j] + 1, phys[j] + k)))
+                    elif not reach[j] and ph[j] != phys[j]:
+                        out.append(("session-not-shared;concurrent", "%s: upstream %d cannot be reached but counted %d (was %d)" % (where, j, ph[j], phys[j])))
+                phys = list(ph)
+                session, alive, kept_alive = None, False, 0
+            if out:
+                return out
+        else:
+            return [("crash", "bad case line")]
+    return out
+
+
 def oracle(case, impl):
     p = impl.split()
     if not p or p[0] in ("panic", "died", "timeout", "harness-error"):
         return [("crash", "scenario crashed: " + impl[:200])]
+    if case["line"].startswith("c16c "):
+        return oracle_concurrent(case, impl)
     toks = case["line"].split()
     must, fwd, n = int(toks[1]), toks[2], int(toks[3])
     ups = toks[4:4 + n]
@@ -171,24 +380,55 @@ def oracle(case, impl):
 
 
 def agree(case, impl, model):
-    return None if impl == model else "policy"
+    if not case["line"].startswith("c16c "):
+        return None if impl == model else "policy"
+    try:
+        ri, rm = parse_rounds(impl), parse_rounds(model)
+    except (ValueError, IndexError):
+        ri = rm = None
+    if ri is None or rm is None or len(ri) != len(rm):
+        return "concurrent-outcome"
+    if all(len(a) == 1 for a in rm):
+        # the model says the outcome does not depend on the schedule: exact comparison
+        return None if impl == model else "concurrent-outcome"
+    for a, b in zip(ri, rm):
+        if len(a) != 1 or a[0] not in b:
+            return "concurrent-outcome-set"     # not among the outcomes of any schedule
+    return None
 
 
 def distribution(cs):
     d = {}
     for c in cs:
         t = c["tags"]
-        k = "%s/n%d/must%d/fwd-%s" % (t["src"], t["n"], t["must"], t["fwd"])
+        k = "%s/n%d/must%d/fwd-%s" % (t["src"], t["n"], t["must"], t["fwd"]) + ("/k%d" % t["k"] if "k" in t else "")
         d[k] = d.get(k, 0) + 1
     return d
 
 
 META = {
-    "level_text": "Coq theorems over a model of HandleConnection / Upstreams.Connect / open: a reachable forward address is used first and no "
-                  "upstream is touched; otherwise the first upstream in list order that completes the handshake and meets the security "
-                  "requirement; one physical session for all logical connections; re-establishment on the next connection after a loss; "
-                  "every attempt bounded. Run against real Socket upstreams, servers, refusing ports and silent listeners on loopback.",
-    "level_note": "The silent peer is bounded by the handshake deadline (variable HandshakeTimeout, lowered in the run). Concurrency of several "
-                  "local connections racing for the upstream lock is exercised in C02/C14, not modelled here.",
-    "technique": "Coq proof over a connection-policy state machine + differential correspondence on loopback",
+    "level_text": "Coq theorems over two models. (1) The connection policy (HandleConnection / Upstreams.Connect / open as one sequential "
+                  "machine): a reachable forward address is used first and no upstream is touched; otherwise the first upstream in list order "
+                  "that completes the handshake and meets the security requirement; one physical session for all logical connections; "
+                  "re-establishment on the next connection after a loss; every attempt bounded. (2) A faithful concurrent model of "
+                  "Upstreams.Connect / open / openStream / Shutdown: any number of goroutines with program counters over the atomic steps "
+                  "(Lock, locked region, Unlock, openStream reading the shared field), the mutex, carrier cuts, keep-alive expiry, upstreams "
+                  "going away and coming back, refused channels. For EVERY schedule: mutual exclusion and no return with the lock held, the "
+                  "holder never waits (lock free after at most two of its own steps); at most one live session, it is the current one; while "
+                  "it lives nothing shared moves and every Connect returns a stream of it; sessions established <= 1 + cuts + Shutdowns and at "
+                  "most one between two losses however many goroutines notice a loss together; a refused channel changes nothing shared; with "
+                  "a good upstream every Connect started after a loss returns a stream of ONE new session on the first good upstream; one "
+                  "goroutine at a time the concurrent model equals the policy model; ten variant shapes (lock kept on an error return, lock "
+                  "after the check, refusal reported as loss, replacement on any error, no guard, stale error, no nil test, no continue, loss "
+                  "not reported) refuted with witness schedules. The model's eleven shape switches are read from the source text on every run. "
+                  "Run against real Socket upstreams, servers, refusing ports and silent listeners on loopback: sequential histories, and "
+                  "concurrent rounds against the real Upstreams object compared with every outcome the model allows.",
+    "level_note": "Relative to: an attempt ends within its deadline (HandshakeTimeout, a variable lowered in the run); smux.Client does not "
+                  "fail for the constant configuration; the locked regions are atomic with respect to each other (sync.Mutex) - unlocked "
+                  "reads of ul.session by openStream ARE modelled, the Go memory model (a racy read seeing a stale pointer) is not. The "
+                  "outcome of a concurrent round is compared exactly where the theorems make it schedule-independent and as membership in "
+                  "the enumerated set otherwise (server away: which error each connection gets depends on the schedule).",
+    "technique": "Coq proof over a connection-policy state machine and over a small-step concurrent transition system of Connect (invariant "
+                 "for all schedules, refinement, refuted variants) + translator readings of the lock/guard/return shape + differential "
+                 "correspondence on loopback, sequential and concurrent",
 }
